@@ -78,6 +78,7 @@ bool exec_case(const uint8_t *d, size_t n, FailInfo &fi) {
     bool pass = true, stopped = false;
     int sig = 0;
     try {
+        dirty_stack();
         sig = guarded([&] { run_case(s, c); }, g_cpu);
     } catch (CaseFail &f) {
         pass = false; fi.sig = f.sig; fi.msg = f.msg; fi.cls = cls_name(f.cls);
